@@ -195,8 +195,16 @@ fn type_directed_arg(r: &mut Rng, name: &str) -> RV {
             let n = r.below(5);
             let h: Vec<RV> = (0..n).map(|_| gen::random_value(r, 0)).collect();
             let m = r.below(4);
+            // needles: hits, misses, and now and then an element of a type the function must reject — also after a hit
             let ns: Vec<RV> = (0..m)
-                .map(|_| if !h.is_empty() && r.chance(1, 3) { h[r.below(h.len())].clone() } else { gen::random_value(r, 0) })
+                .map(|_| {
+                    if !h.is_empty() && r.chance(1, 3) {
+                        h[r.below(h.len())].clone()
+                    } else {
+                        let d = if r.chance(1, 4) { 1 } else { 0 };
+                        gen::random_value(r, d)
+                    }
+                })
                 .collect();
             RV::Tuple(vec![RV::Tuple(h), RV::Tuple(ns)])
         },
